@@ -42,6 +42,13 @@ char *strndup(const char *src, size_t n) {
 	d[k] = 0;
 	return d;
 }
+t_bidib_train_peripheral_state g_bitstate[32]; _Bool g_bit_mapped[32];
+t_bidib_train_peripheral_state *bidib_state_get_train_peripheral_state_by_bit(const t_bidib_train_state_intern *ts, uint8_t bit) { return (bit < 32 && g_bit_mapped[bit]) ? &g_bitstate[bit] : NULL; }
+int bidib_dcc_speed_to_lib_format(uint8_t speed) { int st = speed & 0x7F; return st <= 1 ? 0 : ((speed & 0x80) ? st - 1 : -(st - 1)); }   /* proved in C09.speed */
+t_bidib_board_accessory_mapping g_bam; t_bidib_board_accessory_state g_bacc; _Bool g_point;
+t_bidib_board_accessory_mapping *bidib_state_get_board_accessory_mapping_ref_by_number(t_bidib_node_address a, uint8_t number, bool *point) { *point = g_point; return g_known ? &g_bam : NULL; }
+t_bidib_board_accessory_state *bidib_state_get_board_accessory_state_ref(const char *id, bool point) { return g_known2 ? &g_bacc : NULL; }
+char *vp_last_dup_src;
 static unsigned spec_ma(unsigned c) { return c == 0 ? 0 : c < 16 ? c : c < 64 ? (c - 12) * 4 : c < 128 ? (c - 51) * 16 : c < 192 ? (c - 108) * 64 : (c - 171) * 256; }
 
 void vp_harness(void) {
@@ -103,6 +110,98 @@ void vp_harness(void) {
 	                 g_boo.data.voltage_known == e.data.voltage_known && (!e.data.voltage_known || g_boo.data.voltage == e.data.voltage) &&
 	                 g_boo.data.temp_known == e.data.temp_known && (!e.data.temp_known || g_boo.data.temp_celsius == e.data.temp_celsius),
 	                 "C07.boost_diagnostic.state_is_the_fold_of_the_key_value_pairs (a value byte is never read as a key)");
+#elif defined(VP_H_CS_ACC_MANUAL) || defined(VP_H_CS_ACC)
+	t_bidib_dcc_address d; g_dm.id = &gid; uint8_t in_data, in_time; VP_IN(uint8_t, in_data); VP_IN(uint8_t, in_time);
+	_Bool has_sid; char *old_sid = NULL; if (has_sid) { old_sid = malloc(2); __CPROVER_assume(old_sid != NULL); } g_dacc.data.state_id = old_sid;
+	B01(g_dacc.data.coil_on); B01(g_dacc.data.output_controls_timing);
+	t_bidib_dcc_accessory_state before = g_dacc;
+	_Bool hit = g_known && g_known2;
+#ifdef VP_H_CS_ACC_MANUAL
+	bidib_state_cs_accessory_manual(a, d, in_data);
+	VP_COVER(hit); VP_COVER(!hit);
+	if (hit) __CPROVER_assert(g_dacc.data.state_value == (in_data & 0x1F) && g_dacc.data.coil_on == ((in_data >> 5) & 1) && g_dacc.data.switch_time == 0, "C07.cs_accessory_manual.aspect_coil_and_time_from_the_data_byte");
+	else __CPROVER_assert(g_dacc.data.state_value == before.data.state_value && g_dacc.data.coil_on == before.data.coil_on && g_dacc.data.switch_time == before.data.switch_time, "C07.cs_accessory_manual.unknown_address_changes_nothing");
+	__CPROVER_assert(g_dacc.data.ack == before.data.ack && g_dacc.data.time_unit == before.data.time_unit && g_dacc.id == before.id, "C07.cs_accessory_manual.changes_nothing_else");
+#else
+	t_bidib_cs_accessory_mod prm; prm.dcc_address = d; prm.data = in_data; prm.time = in_time;
+	bidib_state_cs_accessory(a, prm);
+	VP_COVER(hit && has_sid); VP_COVER(!hit);
+	if (hit) __CPROVER_assert(g_dacc.data.state_id == NULL && g_dacc.data.state_value == (in_data & 0x1F) && g_dacc.data.coil_on == ((in_data >> 5) & 1) && g_dacc.data.output_controls_timing == !((in_data >> 6) & 1) &&
+	                          g_dacc.data.time_unit == ((in_time & 0x80) ? BIDIB_TIMEUNIT_SECONDS : BIDIB_TIMEUNIT_MILLISECONDS) && g_dacc.data.switch_time == (in_time & 0x7F),
+	                          "C07.cs_accessory.optimistic_state_from_data_and_time_bytes_aspect_id_unknown_until_confirmed");
+	else __CPROVER_assert(g_dacc.data.state_id == before.data.state_id && g_dacc.data.state_value == before.data.state_value && g_dacc.data.coil_on == before.data.coil_on, "C07.cs_accessory.unknown_address_changes_nothing");
+	__CPROVER_assert(g_dacc.data.ack == before.data.ack && g_dacc.id == before.id, "C07.cs_accessory.changes_nothing_else");
+#endif
+#elif defined(VP_H_BM_SPEED)
+	t_bidib_dcc_address d; uint8_t lo, hi; g_ts.id = &gid; t_bidib_train_state_intern before = g_ts;
+	bidib_state_bm_speed(d, lo, hi);
+	VP_COVER(g_known); VP_COVER(!g_known);
+	__CPROVER_assert(g_ts.detected_kmh_speed == (g_known ? ((hi << 8) | lo) : before.detected_kmh_speed), "C07.bm_speed.measured_speed_is_the_reported_16_bit_value_unknown_address_changes_nothing");
+	__CPROVER_assert(g_ts.set_speed_step == before.set_speed_step && g_ts.ack == before.ack && g_ts.on_track == before.on_track, "C07.bm_speed.changes_nothing_else");
+#elif defined(VP_H_BM_DYN_STATE)
+	t_bidib_dcc_address d; uint8_t num, val; g_ts.id = &gid;
+	B01(g_ts.decoder_state.signal_quality_known); B01(g_ts.decoder_state.temp_known); B01(g_ts.decoder_state.energy_storage_known); B01(g_ts.decoder_state.container2_storage_known); B01(g_ts.decoder_state.container3_storage_known);
+	t_bidib_train_state_intern before = g_ts;
+	bidib_state_bm_dyn_state(d, num, val, 0);
+	VP_COVER(g_known && num == 5); VP_COVER(!g_known);
+	t_bidib_train_decoder_state e = before.decoder_state;
+	if (g_known) { if (num == 1) { e.signal_quality_known = 1; e.signal_quality = val; } else if (num == 2) { e.temp_known = 1; e.temp_celsius = (int8_t)val; } else if (num == 3) { e.energy_storage_known = 1; e.energy_storage = val; }
+	               else if (num == 4) { e.container2_storage_known = 1; e.container2_storage = val; } else if (num == 5) { e.container3_storage_known = 1; e.container3_storage = val; } }
+	t_bidib_train_decoder_state g = g_ts.decoder_state;
+	__CPROVER_assert(g.signal_quality_known == e.signal_quality_known && g.signal_quality == e.signal_quality && g.temp_known == e.temp_known && g.temp_celsius == e.temp_celsius &&
+	                 g.energy_storage_known == e.energy_storage_known && g.energy_storage == e.energy_storage && g.container2_storage_known == e.container2_storage_known && g.container2_storage == e.container2_storage &&
+	                 g.container3_storage_known == e.container3_storage_known && g.container3_storage == e.container3_storage, "C07.bm_dyn_state.exactly_the_reported_decoder_value_changes_unknown_kinds_and_addresses_change_nothing");
+	__CPROVER_assert(g_ts.detected_kmh_speed == before.detected_kmh_speed && g_ts.ack == before.ack, "C07.bm_dyn_state.changes_nothing_else");
+#elif defined(VP_H_CS_DRIVE)
+	t_bidib_cs_drive_mod prm; g_ts.id = &gid; B01(g_ts.set_is_forwards);
+	static t_bidib_train_peripheral_state per[2]; static vp_garray vper; vper.data = (gchar *)per; vper.len = 2; vper.elt_size = sizeof per[0]; g_ts.peripherals = (GArray *)&vper;
+	for (int k = 0; k < 32; k++) B01(g_bit_mapped[k]);
+	t_bidib_train_state_intern before = g_ts; t_bidib_train_peripheral_state bbefore[32]; for (int k = 0; k < 32; k++) bbefore[k] = g_bitstate[k];
+	bidib_state_cs_drive(prm);
+	VP_COVER(g_known && prm.active == 0x3F); VP_COVER(g_known && prm.active == 0); VP_COVER(!g_known);
+	if (!g_known) {
+		__CPROVER_assert(g_ts.set_speed_step == before.set_speed_step && g_ts.set_is_forwards == before.set_is_forwards && g_ts.ack == before.ack, "C07.cs_drive.unknown_address_changes_nothing");
+		for (int k = 0; k < 32; k++) __CPROVER_assert(g_bitstate[k].state == bbefore[k].state, "C07.cs_drive.unknown_address_changes_no_function");
+	} else if (prm.active == 0) {
+		__CPROVER_assert(g_ts.set_speed_step == 0 && g_ts.set_is_forwards && per[0].state == 0 && per[1].state == 0, "C07.cs_drive.inactive_drive_request_means_speed_0_forwards_all_functions_off");
+	} else {
+		uint8_t fb[4] = {prm.function1, prm.function2, prm.function3, prm.function4};
+		if (prm.active & 1) __CPROVER_assert(g_ts.set_speed_step == bidib_dcc_speed_to_lib_format(prm.speed) && g_ts.set_is_forwards == (prm.speed >= 0x80), "C07.cs_drive.speed_and_direction_when_the_speed_group_is_active");
+		else __CPROVER_assert(g_ts.set_speed_step == before.set_speed_step && g_ts.set_is_forwards == before.set_is_forwards, "C07.cs_drive.speed_untouched_when_the_speed_group_is_inactive");
+		__CPROVER_assert(g_ts.ack == BIDIB_DCC_ACK_PENDING, "C07.cs_drive.acknowledgement_pending_after_a_drive_command");
+		for (unsigned k = 0; k < 32; k++) {
+			int grp = k < 5 ? 1 : (k >= 8 && k < 12) ? 2 : (k >= 12 && k < 16) ? 3 : (k >= 16 && k < 24) ? 4 : k >= 24 ? 5 : 0;
+			_Bool upd = grp != 0 && ((prm.active >> grp) & 1) && g_bit_mapped[k];
+			__CPROVER_assert(g_bitstate[k].state == (upd ? ((fb[k / 8] >> (k % 8)) & 1) : bbefore[k].state), "C07.cs_drive.function_bits_of_active_groups_updated_all_others_untouched");
+		}
+	}
+#elif defined(VP_H_ACCESSORY_STATE) || defined(VP_H_LC_STAT)
+	static t_bidib_aspect asp[2]; static GString aid[2]; static char aidc[2][2]; static vp_garray vasp; guint na; __CPROVER_assume(na <= 2);
+	for (int k = 0; k < 2; k++) { aidc[k][0] = (char)(0x61 + k); aidc[k][1] = 0; aid[k].str = aidc[k]; aid[k].len = 1; asp[k].id = &aid[k]; }
+	__CPROVER_assume(asp[0].value != asp[1].value);
+	vasp.data = (gchar *)asp; vasp.len = na; vasp.elt_size = sizeof asp[0];
+	_Bool hit = g_known && g_known2; uint8_t in_aspect; VP_IN(uint8_t, in_aspect);
+	int match = (na > 0 && asp[0].value == in_aspect) ? 0 : (na > 1 && asp[1].value == in_aspect) ? 1 : -1;
+#ifdef VP_H_ACCESSORY_STATE
+	__CPROVER_assume(na >= 1);   /* invariant of parsed board accessories: bidib_config_parser_track.c rejects an empty aspects list */
+	g_bam.id = &gid; g_bam.aspects = (GArray *)&vasp; g_bacc.data.state_id = NULL; VP_IN(_Bool, g_point);
+	uint8_t num, total, exec, wait; t_bidib_board_accessory_state before = g_bacc;
+	bidib_state_accessory_state(a, num, in_aspect, total, exec, wait, 0);
+	VP_COVER(hit && match == 1); VP_COVER(hit && match < 0); VP_COVER(!hit);
+	if (hit) {
+		__CPROVER_assert(g_bacc.data.state_value == in_aspect && g_bacc.data.execution_state == (t_bidib_accessory_execution_state)exec && g_bacc.data.wait_details == wait, "C07.accessory_state.aspect_value_execution_and_wait_are_the_reported_ones");
+		__CPROVER_assert(match < 0 ? g_bacc.data.state_id == NULL : (g_bacc.data.state_id != NULL && g_bacc.data.state_id[0] == aidc[match][0]), "C07.accessory_state.aspect_id_is_the_configured_id_of_the_reported_value_or_unknown");
+	} else __CPROVER_assert(g_bacc.data.state_value == before.data.state_value && g_bacc.data.state_id == before.data.state_id && g_bacc.data.execution_state == before.data.execution_state, "C07.accessory_state.unknown_accessory_changes_nothing");
+#else
+	g_pm.id = &gid; g_pm.aspects = (GArray *)&vasp; g_per.data.state_id = NULL; t_bidib_peripheral_port prt; t_bidib_peripheral_state before = g_per;
+	bidib_state_lc_stat(a, prt, in_aspect, 0);
+	VP_COVER(hit && match == 1); VP_COVER(hit && match < 0); VP_COVER(!hit);
+	if (hit) {
+		__CPROVER_assert(g_per.data.state_value == in_aspect, "C07.lc_stat.port_state_value_is_the_reported_one");
+		__CPROVER_assert(match < 0 ? g_per.data.state_id == NULL : (g_per.data.state_id != NULL && g_per.data.state_id[0] == aidc[match][0]), "C07.lc_stat.aspect_id_is_the_configured_id_of_the_reported_value_or_unknown");
+	} else __CPROVER_assert(g_per.data.state_value == before.data.state_value && g_per.data.state_id == before.data.state_id, "C07.lc_stat.unknown_port_changes_nothing");
+	__CPROVER_assert(g_per.data.wait == before.data.wait && g_per.data.time_unit == before.data.time_unit, "C07.lc_stat.changes_nothing_else");
+#endif
 #elif defined(VP_H_VENDOR)
 	uint8_t in_len; VP_IN(uint8_t, in_len); __CPROVER_assume(in_len >= 2 && in_len <= 12);   /* dispatcher guarantees >= 2 bytes; bounded: <= 12 */
 	uint8_t *list = malloc(in_len); __CPROVER_assume(list != NULL);
